@@ -4,7 +4,7 @@
   /repo/emitter/file/src/lib.rs:574-646 `default_writer`: one sval record streamed into `sval_json`:
       ts_start? ts?  (from the extent, Display text)        :594-604
       mdl msg tpl    (Display text)                          :606-616
-      then every property of `props().dedup()`               :618-636
+      then every property of `props().dedup()` whose key is not one of these five reserved names :618-644
   A property whose value fails to stream makes the whole event fail (the error is returned, the caller
   `FileSetInner::emit` counts `event_format_failed` and discards the event, :487-505) — this is the behaviour
   after the repair `fix: file default writer reports a property that fails to format`; before it the error was
@@ -83,12 +83,20 @@ def fixedFields (e : Event) : List (String × Json) :=
     | .range a b => [("ts_start", .str a.text), ("ts", .str b.text)])
   ++ [("mdl", .str e.mdl), ("msg", .str e.msg), ("tpl", .str e.tplText)]
 
-/-- lib.rs:618-636 (after the repair: the first failing property fails the event) -/
+/-- the keys of the built-in fields are reserved: a property using one is not written
+    (after the repair `fix: file default writer skips properties named like the built-in fields`; before it the
+    record got a second member of that name) -/
+def reservedKey (k : String) : Bool :=
+  k = "ts_start" || k = "ts" || k = "mdl" || k = "msg" || k = "tpl"
+
+/-- lib.rs:618-644 (after the repairs: reserved keys are skipped, the first failing property fails the event) -/
 def propFields : List (String × PV) → Option (List (String × Json))
   | [] => some []
-  | (k, v) :: rest => match toJson v.image, propFields rest with
-    | some j, some ms => some ((k, j) :: ms)
-    | _, _ => none
+  | (k, v) :: rest =>
+    if reservedKey k then propFields rest
+    else match toJson v.image, propFields rest with
+      | some j, some ms => some ((k, j) :: ms)
+      | _, _ => none
 
 /-- the record of one event; `none` = formatting failed, the event is discarded and counted -/
 def fileRecord (e : Event) : Option Json :=
